@@ -57,6 +57,27 @@ func (e *Engine) VerifyRoot(fn *ssa.Function) (u *Unit) {
 		fr.vals[p] = v
 		params[p.Name()] = v
 	}
+	// A parameter that the contract's header does not name, of an unexported method, which every call site of the
+	// package fills with the same field of the very receiver it calls the method on (`e.step(e.kv, e.key, x)`),
+	// holds that field at entry: the helper was given explicitly what it used to read from its receiver.
+	if u.fc != nil && len(fn.Params) > 1 && fn.Signature.Recv() != nil {
+		if rs, ok := fr.vals[fn.Params[0]].(*Scalar); ok && isPointer(fn.Params[0].Type()) {
+			for i, fname := range e.receiverFieldArgs(fn, u.fc.Params) {
+				if fname == "" {
+					continue
+				}
+				pt := fn.Params[0].Type().Underlying().(*types.Pointer).Elem()
+				lt := typeAt(pt, []string{fname}, e)
+				if lt == nil {
+					continue
+				}
+				v := u.rawHeap(st, structRootName(pt), []string{fname}, rs.T, lt)
+				fr.vals[fn.Params[i]] = v
+				params[fn.Params[i].Name()] = v
+				u.assumedUsed[fmt.Sprintf("parameter %s of %s holds the receiver's field %s at entry (every call site passes it)", fn.Params[i].Name(), u.rootKey, fname)]++
+			}
+		}
+	}
 	for _, fv := range fn.FreeVars {
 		// closures verified on their own: captured cells with unknown content
 		elem := fv.Type().(*types.Pointer).Elem()
@@ -617,4 +638,75 @@ func (e *Engine) termProps(fns ...*ssa.Function) []string {
 		}
 	}
 	return props
+}
+
+// receiverFieldArgs: for each parameter index of the unexported method fn, the name of the receiver field that every
+// call site in the package passes there ("" if the header of the contract names the parameter, if the call sites
+// differ, if there is none, or if fn is used other than by direct calls).
+func (e *Engine) receiverFieldArgs(fn *ssa.Function, declared []string) []string {
+	out := make([]string, len(fn.Params))
+	if fn.Object() == nil || fn.Object().Exported() {
+		return out
+	}
+	named := map[string]bool{}
+	for _, d := range declared {
+		named[d] = true
+	}
+	sites := 0
+	cand := make([]string, len(fn.Params))
+	bad := make([]bool, len(fn.Params))
+	for _, g := range e.funcs {
+		for _, b := range g.Blocks {
+			for _, ins := range b.Instrs {
+				// any use of fn as a value disables the inference
+				for _, op := range ins.Operands(nil) {
+					if op != nil && *op == ssa.Value(fn) {
+						if ci, ok := ins.(ssa.CallInstruction); !ok || ci.Common().Value != ssa.Value(fn) {
+							return make([]string, len(fn.Params))
+						}
+					}
+				}
+				ci, ok := ins.(ssa.CallInstruction)
+				if !ok || ci.Common().StaticCallee() != fn || ci.Common().IsInvoke() {
+					continue
+				}
+				if _, isGo := ins.(*ssa.Go); isGo {
+					return make([]string, len(fn.Params))
+				}
+				if _, isDefer := ins.(*ssa.Defer); isDefer {
+					return make([]string, len(fn.Params))
+				}
+				args := ci.Common().Args
+				if len(args) != len(fn.Params) {
+					return make([]string, len(fn.Params))
+				}
+				sites++
+				for i := 1; i < len(args); i++ {
+					f := ""
+					a := args[i]
+					if ch, ok := a.(*ssa.ChangeInterface); ok {
+						a = ch.X
+					}
+					if ld, ok := a.(*ssa.UnOp); ok && ld.Op == token.MUL {
+						if fa, ok := ld.X.(*ssa.FieldAddr); ok && fa.X == args[0] {
+							f = fa.X.Type().Underlying().(*types.Pointer).Elem().Underlying().(*types.Struct).Field(fa.Field).Name()
+						}
+					}
+					if f == "" || (cand[i] != "" && cand[i] != f) {
+						bad[i] = true
+					}
+					cand[i] = f
+				}
+			}
+		}
+	}
+	if sites == 0 {
+		return out
+	}
+	for i := 1; i < len(fn.Params); i++ {
+		if !bad[i] && cand[i] != "" && !named[fn.Params[i].Name()] {
+			out[i] = cand[i]
+		}
+	}
+	return out
 }
